@@ -12,7 +12,11 @@ CHECKS = {
          'checks topological-permutation / cycle-reported invariants; every graph is replayed '
          'into the real DependencyGraph and the real output judged by the same oracle. '
          'Exhaustive in small scope is the right level for a 40-line ordering core whose bugs '
-         'live in particular graph shapes.'),
+         'live in particular graph shapes. Part 2 (EvoGraph.tla) transcribes the construction of the evolution graph, batching '
+         'and execution order for projects with AFTER_/BEFORE_EVOLUTIONS declarations and replays them as real projects. Part 3 '
+         '(MigGraph.tla) is the reference for evolutions next to Django migrations (AFTER_/BEFORE_MIGRATIONS per evolution and per '
+         'app, migration dependencies, partly applied chains): TLC computes the requirements in force and their satisfiability, '
+         'the real upgrade order is judged against them.'),
    design_ref='DESIGN.md 3.4, 6 (C09)',
    note='Trusts TLC, the JSON record parser and the Python oracle (DFS cycle test, edge check).',
    technique='TLA+ transcription + TLC exhaustive enumeration + spec-to-code replay'),
@@ -259,6 +263,8 @@ def main():
              'kind_free_text': 'handover configurations of Handover.tla built as projects with evolutions and migration files, upgraded twice'},
             {'name': 'ledger', 'path': 'harness/engines/ledger.py', 'serves_properties': ['C08'],
              'kind_free_text': 'runs interleaved with mark-evolution-applied / wipe-evolution from Ledger.tla, replayed through the commands'},
+            {'name': 'miggraph', 'path': 'harness/engines/miggraph.py', 'serves_properties': ['C09'],
+             'kind_free_text': 'projects with evolution apps, migration apps and ordering declarations from MigGraph.tla; executed order judged'},
             {'name': 'refs', 'path': 'harness/engines/refs.py', 'serves_properties': ['C11'],
              'kind_free_text': 'TLC-enumerated reference graphs and rename/delete sequences replayed into real simulate() methods'},
             {'name': 'evograph', 'path': 'harness/engines/evograph.py', 'serves_properties': ['C09'],
